@@ -107,7 +107,7 @@ func C17(c *ev.Ctx) {
 		return
 	}
 	depth := c.Pick(5, 8)
-	nb := c.Pick(14, 150)
+	nb := c.Pick(14, 400)
 	cfg := fmt.Sprintf("CONSTANTS\n Pkgs <- MCPkgs\n Class <- MCClass\n PatternLists <- MCPatterns\n D = %d\nINIT Init\nNEXT Next\nINVARIANT EmitHist\n", depth)
 	_ = os.WriteFile(filepath.Join(dir, "SimGooseCmd.cfg"), []byte(cfg), 0644)
 	sr := tlc.Run{Dir: dir, Module: "MCGooseCmd", Cfg: "SimGooseCmd.cfg", Workers: 1, Timeout: 10 * time.Minute,
